@@ -328,6 +328,23 @@ func (c c01) lineages(ctx *core.Ctx, cfgs []dbCfg, all bool) {
 			nlong++
 		}
 	}
+	// the deletion at table position p of n tables (the value in table 1): whatever subset of a large selection a cycle
+	// really merges, the tombstone must survive as long as the value's table is not part of it
+	for n := 16; n <= 20; n++ {
+		for p := 3; p <= 6; p++ {
+			prog := []dbOp{{Op: "putrot", K: 0, V: 0}}
+			for j := 2; j <= n; j++ {
+				if j == p {
+					prog = append(prog, dbOp{Op: "delrot", K: 0})
+				} else {
+					prog = append(prog, dbOp{Op: "putrot", K: 1 + j%2, V: 0})
+				}
+			}
+			prog = append(prog, dbOp{Op: "cmp"}, dbOp{Op: "putrot", K: 2, V: 0}, dbOp{Op: "reopen", C: 2})
+			cases = append(cases, core.J(c01Case{Flavor: "C06", Init: 2, Path: prog[:len(prog)-1], Ops: prog[len(prog)-1:], CheckAll: true}))
+			nlong++
+		}
+	}
 	for n := 4; n <= 12; n++ {
 		// n forced rotations, then 400 overwrites of one key under a 100-byte memstore limit (the WAL file rotates by size
 		// twice inside that generation), a final overwrite, a flush and a restart - configuration 1 of the C01 set
@@ -339,7 +356,7 @@ func (c c01) lineages(ctx *core.Ctx, cfgs []dbCfg, all bool) {
 		cases = append(cases, core.J(c01Case{Flavor: "C01", Init: 1, Path: prog[:len(prog)-1], Ops: prog[len(prog)-1:], CheckAll: true}))
 		nlong++
 	}
-	ctx.Ev.Bounds["long_histories"] = fmt.Sprintf("%d: Put(a) Delete(a) + n flushes of other keys (n = 1..20) + Compact + flush + Reopen under two configurations; n = 4..12 forced rotations + 400 overwrites + Put + flush + Reopen under a 100-byte memstore limit", nlong)
+	ctx.Ev.Bounds["long_histories"] = fmt.Sprintf("%d: Put(a) Delete(a) + n flushes of other keys (n = 1..20) + Compact + flush + Reopen under two configurations; 16..20 tables with the deletion in table 3..6; n = 4..12 forced rotations + 400 overwrites + Put + flush + Reopen under a 100-byte memstore limit", nlong)
 	ctx.Ev.Bounds["lineage_tables"] = k
 	ctx.Ev.Bounds["lineages"] = len(lins)
 	if all {
